@@ -27,6 +27,9 @@ type cfgData struct {
 	addrs     []string // one requester per entry
 	canceller bool
 	rounds    int
+	// concRelease: the two releases of one handle are issued from two
+	// goroutines at once instead of one after the other
+	concRelease bool
 }
 
 type harness struct{}
@@ -46,12 +49,15 @@ func configsBase(tier string) []xplore.Config {
 	sets := [][]string{{"A", "A"}, {"A", "B"}, {"A", "A", "A"}, {"A", "A", "B"}}
 	for _, s := range sets {
 		for _, c := range []bool{false, true} {
-			out = append(out, xplore.Config{Name: fmt.Sprintf("requesters=%v canceller=%v rounds=1", s, c), Bound: bound, Data: cfgData{s, c, 1}})
+			out = append(out, xplore.Config{Name: fmt.Sprintf("requesters=%v canceller=%v rounds=1", s, c), Bound: bound, Data: cfgData{addrs: s, canceller: c, rounds: 1}})
 		}
 	}
+	for _, s := range sets[:3] {
+		out = append(out, xplore.Config{Name: fmt.Sprintf("requesters=%v concurrent double release", s), Bound: bound, Data: cfgData{addrs: s, rounds: 1, concRelease: true}})
+	}
 	rb := bound - 1
-	out = append(out, xplore.Config{Name: "requesters=[A A] canceller=false rounds=2", Bound: bound, Data: cfgData{[]string{"A", "A"}, false, 2}})
-	out = append(out, xplore.Config{Name: "requesters=[A A B] canceller=true rounds=2", Bound: rb, Data: cfgData{[]string{"A", "A", "B"}, true, 2}})
+	out = append(out, xplore.Config{Name: "requesters=[A A] canceller=false rounds=2", Bound: bound, Data: cfgData{addrs: []string{"A", "A"}, rounds: 2}})
+	out = append(out, xplore.Config{Name: "requesters=[A A B] canceller=true rounds=2", Bound: rb, Data: cfgData{addrs: []string{"A", "A", "B"}, canceller: true, rounds: 2}})
 	return out
 }
 
@@ -142,6 +148,11 @@ func (harness) Run(cfg xplore.Config, ch vrt.Chooser, trace bool) (xplore.Outcom
 					vrt.Yield() // "use"
 					if conn.GetState() == connectivity.Shutdown {
 						viol("closed-while-held", "the connection to %s was closed while requester %d still held it", addr, i)
+					}
+					if d.concRelease {
+						vrt.GoNamed(fmt.Sprintf("req%d-second-release", i), done)
+						done()
+						continue
 					}
 					done()
 					done() // releasing twice has no effect
